@@ -60,15 +60,57 @@ def build(reg):
                         ghost_end=["src[dec(joint_degrees[IT], index)] = (IT if joint_degrees[IT][index] > 0 else src[dec(joint_degrees[IT], index)])"],
                         snap={"qks_in": "qks"}, uses={"done": ["ctx", "enum", "frame"]},
                         hints={"removing_one_edge_is_injective": "forall(a, 0, len(joint_degrees), forall(b, 0, len(joint_degrees), implies(dec(joint_degrees[a], index) == dec(joint_degrees[b], index), joint_degrees[a] == joint_degrees[b])))"})})
+    NameC = Elem("Name"); LNameC = ListT(NameC); QDc = DictT(JD, REAL); LQc = ListT(QDc); OBSc = DictT(NameC, QDc)
+    DISTINCT = "forall(a, 0, len(keys), forall(b, a + 1, len(keys), keys[a] != keys[b]))"
+    m.fn("JointExcessfromJDD.convert_list_qks_to_dict", params={"qks_list": LQc, "keys": LNameC}, ret=OBSc, locals={"qks_dict": OBSc},
+         requires={"names_distinct": DISTINCT},
+         ensures={"a_th_name_maps_to_a_th_distribution": "forall(a, 0, (len(keys) if len(keys) < len(qks_list) else len(qks_list)), (keys[a] in result) and result[keys[a]] == qks_list[a], trigger=keys[a])",
+                  "no_other_names": "forall_elem(t, Name, implies(t in result, exists(a, 0, (len(keys) if len(keys) < len(qks_list) else len(qks_list)), t == keys[a])))",
+                  "input_unchanged": "qks_list == old(qks_list) and keys == old(keys)"},
+         loops={0: dict(inv={"done": "forall(a, 0, IT, (keys[a] in qks_dict) and qks_dict[keys[a]] == qks_list[a], trigger=keys[a])",
+                             "only": "forall_elem(t, Name, implies(t in qks_dict, exists(a, 0, IT, t == keys[a])))", "frame": "qks_list == old(qks_list) and keys == old(keys)"},
+                        uses={"done": ["frame"], "only": ["frame"]})})
+    m.fn("JointExcessfromJDD.convert_dict_qks_to_list", params={"qks_dict": OBSc, "keys": LNameC}, ret=LQc, locals={"qks_list": LQc},
+         requires={"every_name_present": "forall(a, 0, len(keys), keys[a] in qks_dict, trigger=keys[a])"},
+         ensures={"one_distribution_per_name_in_the_order_of_the_names": "len(result) == len(keys) and forall(a, 0, len(keys), result[a] == qks_dict[keys[a]], trigger=keys[a])",
+                  "input_unchanged": "qks_dict == old(qks_dict) and keys == old(keys)"},
+         loops={0: dict(inv={"done": "len(qks_list) == IT and forall(a, 0, IT, qks_list[a] == qks_dict[keys[a]], trigger=keys[a])", "frame": "qks_dict == old(qks_dict) and keys == old(keys)"},
+                        uses={"done": ["frame"]})})
+    # ---- list -> dict -> list is the identity (a lemma over the two contracts: only the callees' contracts are used)
+    reg.virtual["<lemma>/qks_roundtrip.py"] = (
+        "class QksRoundTrip:\n"
+        "    def roundtrip(qks_list, keys):\n"
+        "        d = JointExcessfromJDD.convert_list_qks_to_dict(qks_list, keys)\n"
+        "        back = JointExcessfromJDD.convert_dict_qks_to_list(d, keys)\n"
+        "        return back\n")
+    mlq = reg.module("<lemma>/qks_roundtrip.py"); mlq.cls("QksRoundTrip", fields={})
+    mlq.fn("QksRoundTrip.roundtrip", params={"qks_list": LQc, "keys": LNameC}, ret=LQc, locals={"d": OBSc, "back": LQc},
+           requires={"names_distinct": DISTINCT, "one_name_per_distribution": "len(keys) == len(qks_list)"},
+           ensures={"identity": "len(result) == len(qks_list) and forall(a, 0, len(qks_list), result[a] == qks_list[a])"})
     mi = reg.module("gcmpy/tools/joint_degree_from_excess.py")
     mi.cls("JointDegreeFromExcess", fields={})
     mi.fn("JointDegreeFromExcess.invert_single", params={"qk": DictT(JD, REAL), "i": INT, "T": INT}, ghost=["T"], ret=DictT(JD, REAL), locals={"P": DictT(JD, REAL)}, opaque_arith=True,
           requires={"keys": "forall_elem(k, JD, implies(k in qk, len(k) == T and is_tuple(k) and k[i] + 1 != 0))", "index": "0 <= i and i < T"},
           ensures={"each_key_gets_one_more_i_edge": "forall_elem(e, JD, implies(e in qk, (inc(e, i) in result) and result[inc(e, i)] == (qk[e] / (e[i] + 1)) / bottom))",
-                   "nothing_else": "forall_elem(k, JD, implies(k in result, exists(j, 0, len(KEYS), k == inc(KEYS[j], i))))", "input_unchanged": "qk == old(qk)"},
+                   "nothing_else": "forall_elem(k, JD, implies(k in result, exists(j, 0, len(KEYS), k == inc(KEYS[j], i))))",
+                   "nothing_else_by_membership": "forall_elem(k, JD, implies(k in result, exists_elem(e2, JD, (e2 in qk) and k == inc(e2, i))))", "input_unchanged": "qk == old(qk)"},
+          exports={"bottom": REAL},
           raises={"ZeroDivisionError": dict(when="True", only=False)},
           loops={0: dict(inv={"done": "forall(j, 0, IT, (inc(KEYS[j], i) in P) and P[inc(KEYS[j], i)] == (qk[KEYS[j]] / (KEYS[j][i] + 1)) / bottom)",
                               "only": "forall_elem(k, JD, implies(k in P, exists(j, 0, IT, k == inc(KEYS[j], i))))", "frame": "qk == old(qk)"})})
+    NameI = Elem("Name"); OBS = DictT(NameI, DictT(JD, REAL)); LNameI = ListT(NameI)
+    OBS_DONE = ("forall(a, 0, {n}, ((keys[a] in {r}) and forall_elem(e, JD, implies(e in qks[keys[a]], (inc(e, a) in {r}[keys[a]]) and {r}[keys[a]][inc(e, a)] == (qks[keys[a]][e] / (e[a] + 1)) / bot[a])) "
+                "and forall_elem(k, JD, implies(k in {r}[keys[a]], exists_elem(e2, JD, (e2 in qks[keys[a]]) and k == inc(e2, a))))), trigger=keys[a])")
+    mi.fn("JointDegreeFromExcess.observations_from_dict", params={"qks": OBS, "keys": LNameI, "T": INT, "bot": ArrT(INT, REAL)}, ghost=["T", "bot"], ret=OBS, locals={"P_observations": OBS}, opaque_arith=True,
+          call_ghosts={"JointDegreeFromExcess.invert_single": {"T": "T"}},
+          requires={"one_name_per_topology": "len(keys) == T", "names_distinct": "forall(a, 0, len(keys), forall(b, a + 1, len(keys), keys[a] != keys[b]))",
+                    "every_name_has_an_excess_distribution": "forall(a, 0, len(keys), keys[a] in qks, trigger=keys[a])",
+                    "keys": "forall(a, 0, len(keys), forall_elem(k, JD, implies(k in qks[keys[a]], len(k) == T and is_tuple(k) and k[a] + 1 != 0)), trigger=keys[a])"},
+          ensures={"the_a_th_name_is_inverted_along_the_a_th_coordinate": OBS_DONE.format(n="len(keys)", r="result"),
+                   "no_other_names": "forall_elem(t, Name, implies(t in result, exists(a, 0, len(keys), t == keys[a])))", "input_unchanged": "qks == old(qks) and keys == old(keys)"},
+          raises={"ZeroDivisionError": dict(when="True", only=False)},
+          loops={0: dict(inv={"done": OBS_DONE.format(n="IT", r="P_observations"), "only": "forall_elem(t, Name, implies(t in P_observations, exists(a, 0, IT, t == keys[a])))", "frame": "qks == old(qks) and keys == old(keys)"},
+                         ghost_end=["bot[IT] = bottom_of_invert_single"], uses={"done": ["frame"], "only": ["frame"]})})
     mh = reg.module("gcmpy/tools/joint_degree_distribution_from_network.py")
     mh.cls("JointDegreeDistributionFromNetwork", fields={})
     mh.fn("JointDegreeDistributionFromNetwork.get_joint_degree_distribution", params={"G": Gt}, ret=DictT(JD, REAL), locals={"PK": DictT(JD, REAL)},
@@ -106,4 +148,4 @@ def build(reg):
                 2: dict(inv={"ctx": "key == KEYS[J] and ejk == ejks._ejks[key] and keys == ejks._excess_degree_keys[key] and left_key == keys[A] and 0 <= A and A < len(keys) and " + DUPFREE, "frame": "ejks == old(ejks) and qks == qks_in",
                              "rows": ROWK.replace("IT2", "A"), "later_untouched": "forall(a, A + 1, len(keys), not (keys[a] in q), trigger=keys[a])",
                              "current": "((left_key in q) == (hits(ejk, keys, left_key, IT) > 0)) and q.get(left_key, 0.0) == rsum(ejk, keys, left_key, IT)"})})
-    return quals + ["JointExcessfromJDD.get_joint_excess_distributions", "JointDegreeFromExcess.invert_single", "JointDegreeDistributionFromNetwork.get_joint_degree_distribution", "JointExcessFromEjk.get_excess_joint_distributions"]
+    return quals + ["JointExcessfromJDD.get_joint_excess_distributions", "JointExcessfromJDD.convert_list_qks_to_dict", "JointExcessfromJDD.convert_dict_qks_to_list", "QksRoundTrip.roundtrip", "JointDegreeFromExcess.invert_single", "JointDegreeFromExcess.observations_from_dict", "JointDegreeDistributionFromNetwork.get_joint_degree_distribution", "JointExcessFromEjk.get_excess_joint_distributions"]
